@@ -170,12 +170,15 @@ class Expecter(object):
                     return self.timeout()
                 # Still have time left, so read more data
                 incoming = spawn.read_nonblocking(spawn.maxread, timeout)
-                if self.spawn.delayafterread is not None:
-                    time.sleep(self.spawn.delayafterread)
+                # Store (and search) what was read before pausing: an
+                # exception arriving from outside during the pause (Ctrl-C,
+                # a signal handler that raises) must not take it along.
                 idx = self.new_data(incoming)
                 # Keep reading until exception or return.
                 if idx is not None:
                     return idx
+                if self.spawn.delayafterread is not None:
+                    time.sleep(self.spawn.delayafterread)
                 if timeout is not None:
                     timeout = end_time - time.time()
         except EOF as e:
